@@ -11,7 +11,10 @@
 //!   `(output, next world)` pair.  `run()` phases are compared against the
 //!   terminal results reachable from the current worlds, `step()` phases are
 //!   compared step by step; the worlds that do not agree with what was observed
-//!   (result and completion flags of the main futures) are dropped.
+//!   (result and completion flags of the main futures) are dropped.  The model fixes the number
+//!   of steps of a `run()` only where the property does: a `run()` that starts with nothing to
+//!   wait for (every registered client already finished Ok, or no client at all) may return Ok
+//!   on the spot or after one more step; either way the state is carried forward as observed.
 //! * **poll oracle** — every future of every software (main future and every
 //!   task it spawns, with `spawn_local` or `tokio::spawn`) is wrapped in a
 //!   [`Probe`] that knows which *incarnation* of the software it belongs to.
@@ -324,8 +327,33 @@ impl Model {
         })
     }
 
+    /// Is there nothing a `run()` started after `e` steps in world `w` could wait for?  True when
+    /// every registered client has already completed Ok (vacuously true without any client).
+    /// The property fixes the *result* of such a call (Ok, unless software fails in a step it
+    /// takes) but not whether it still takes a step.
+    fn nothing_to_wait_for(&self, w: &World, e: u64) -> bool {
+        self.sws.iter().enumerate().filter(|(_, s)| s.client).all(|(i, s)| match &s.main {
+            Some((Kind::Ok, ev)) => fired_by_end(ev, (i, 0), e, w),
+            _ => false,
+        })
+    }
+
     /// All terminal results of `run()` started after `e` steps in one of the worlds `fr`,
     /// each with the world it leaves behind.
+    ///
+    /// In a world with nothing to wait for two behaviours are admissible: return Ok on the spot
+    /// (no step: elapsed unchanged, nothing polled, so nothing can fail or panic), or step until
+    /// completion is reported (one step, which reports completion unless host software fails in
+    /// it).  The observation picks one and the world is carried forward accordingly.
+    fn run_terminals(&self, fr: &BTreeSet<World>, e: u64) -> Option<Vec<(Res, World)>> {
+        let mut term: Vec<(Res, World)> =
+            fr.iter().filter(|w| self.nothing_to_wait_for(w, e)).map(|w| (Res::Ok(e), w.clone())).collect();
+        term.extend(self.run_offline(fr, e)?);
+        Some(term)
+    }
+
+    /// All terminal results of a `run()` that steps until completion is reported, started after
+    /// `e` steps in one of the worlds `fr`, each with the world it leaves behind.
     fn run_offline(&self, fr: &BTreeSet<World>, e: u64) -> Option<Vec<(Res, World)>> {
         let mut term = Vec::new();
         let mut fr = fr.clone();
@@ -901,15 +929,15 @@ pub fn run(sc: &Scenario) -> Outcome {
         if ph.use_run {
             // ---- run()
             let any_client = r.tr.iter().any(|t| t.sw.client);
-            let term: Vec<(Res, World)> = if !any_client {
-                r.fr.iter().map(|w| (Res::Ok(r.e), w.clone())).collect()
-            } else {
-                match r.m.run_offline(&r.fr, r.e) {
-                    Some(t) => t,
-                    None => {
-                        r.out.label("model-gave-up-too-ambiguous");
-                        break 'phases;
-                    }
+            let idle = r.fr.iter().any(|w| r.m.nothing_to_wait_for(w, r.e));
+            if idle {
+                r.out.label(if any_client { "run-with-all-clients-already-finished" } else { "run-without-clients" });
+            }
+            let term: Vec<(Res, World)> = match r.m.run_terminals(&r.fr, r.e) {
+                Some(t) => t,
+                None => {
+                    r.out.label("model-gave-up-too-ambiguous");
+                    break 'phases;
                 }
             };
             let adm: BTreeSet<Res> = term.iter().map(|t| t.0.clone()).collect();
@@ -969,9 +997,10 @@ pub fn run(sc: &Scenario) -> Outcome {
             match actual {
                 Res::Ok(k) => {
                     r.out.label("phase-ok");
-                    if any_client {
-                        r.e = k;
+                    if idle {
+                        r.out.label(if k == r.e { "idle-run-took-no-step" } else { "idle-run-took-a-step" });
                     }
+                    r.e = k;
                     let done = r.done_flags();
                     let next: BTreeSet<World> = term
                         .into_iter()
@@ -1263,12 +1292,13 @@ fn check(tier: Tier, seed: u64) -> i32 {
     ctx.random("outcomes", tier.pick(40_000, 600_000), &|| scenario_strategy(false), &run);
     ctx.random("lifecycle", tier.pick(30_000, 300_000), &|| scenario_strategy(true), &run);
     ctx.finish(
-        "random scenarios of 1-4 register-then-run phases; each software is a client or host whose main future finishes Ok / Err / never / panics at a generated virtual time and which may spawn tasks (spawn_local or tokio::spawn) that outlive the main future: millisecond tickers, holders of a TCP listener / UDP socket bound by the main future, delayed panics; a phase is run(), a step() loop until completion is reported, or exactly n step() calls; hosts are crashed / bounced / crashed+bounced before a phase and between two steps of a step-mode phase, whether they are running, finished or crashed. Sub-tier `lifecycle` is the same generator biased to hosts that finish early with live tasks and to more controller actions. Oracles: (1) set-valued outcome model stepped with the simulation (boundary finishes either adjacent step; same-step failures of different softwares either order; late panics of finished / crashed / replaced incarnations excluded), compared with every step() result, every run() result and Sim::elapsed; (2) every future of every software records its polls per incarnation: none may be polled after its incarnation finished (from the end of that step), was crashed or was replaced by a bounce; (3) a restarted software must be able to bind the port its dead incarnation held. Non-trivial = >=2 outcome kinds present, or a finish exactly on a step boundary, or a finish within one step of the duration limit, or a crash/bounce of a finished or crashed host or of a host with spawned tasks. Distinct by scenario hash.",
+        "random scenarios of 1-4 register-then-run phases; each software is a client or host whose main future finishes Ok / Err / never / panics at a generated virtual time and which may spawn tasks (spawn_local or tokio::spawn) that outlive the main future: millisecond tickers, holders of a TCP listener / UDP socket bound by the main future, delayed panics; a phase is run(), a step() loop until completion is reported, or exactly n step() calls; hosts are crashed / bounced / crashed+bounced before a phase and between two steps of a step-mode phase, whether they are running, finished or crashed. Sub-tier `lifecycle` is the same generator biased to hosts that finish early with live tasks and to more controller actions. Oracles: (1) set-valued outcome model stepped with the simulation (boundary finishes either adjacent step; same-step failures of different softwares either order; late panics of finished / crashed / replaced incarnations excluded; a run() that starts with nothing to wait for — every registered client already finished Ok in earlier phases, or no client registered — may return Ok without stepping, elapsed unchanged and nothing polled, or take exactly one step whose software errors / panics surface, the observed alternative being carried forward), compared with every step() result, every run() result and Sim::elapsed; (2) every future of every software records its polls per incarnation: none may be polled after its incarnation finished (from the end of that step), was crashed or was replaced by a bounce; (3) a restarted software must be able to bind the port its dead incarnation held. Non-trivial = >=2 outcome kinds present, or a finish exactly on a step boundary, or a finish within one step of the duration limit, or a crash/bounce of a finished or crashed host or of a host with spawned tasks. Distinct by scenario hash.",
         &[
             "built with --cfg tokio_unstable (panic forwarding)",
             "the step in which a panic surfaced inside run() cannot be observed from outside; any admissible panic step is accepted",
             "after an error the outcome model stops (continuing a failed simulation is not part of the property); the remaining phases only drive the poll oracle; after a panic the scenario stops",
             "inside run() the harness cannot mark a software finished between two steps: polls after the finish are detected from the next harness-visible point on (step mode: the very next step)",
+            "the property fixes when run() returns Ok / Err, not how many steps a run() takes when there is nothing left to wait for (all clients finished earlier, or zero clients): returning at once and taking one more step are both accepted; a duration error is never admissible there",
             "every software runs on its own node, so a bind can only collide with an earlier incarnation of the same software",
         ],
     )
